@@ -94,6 +94,16 @@ func runCheck(prop, tier, root string, seed int) int {
 		rel, _ := filepath.Rel(root, d)
 		pats = append(pats, "./"+rel)
 	}
+	for f, more := range cs0.AlsoLoad {
+		if dirs[filepath.Dir(f)] {
+			for _, m := range more {
+				if !dirs[filepath.Join(root, m)] {
+					dirs[filepath.Join(root, m)] = true
+					pats = append(pats, "./"+filepath.Clean(m))
+				}
+			}
+		}
+	}
 	sort.Strings(pats)
 	if len(pats) == 0 {
 		fmt.Printf("UNDECIDED property=%s: no contracts carry this property tag (zero obligations would be vacuous)\n", prop)
